@@ -786,23 +786,27 @@ func (c *candidateBase) marshalExtensions() string {
 
 // Equal returns true if the candidate extensions are equal.
 func (c *candidateBase) extensionsEqual(other []CandidateExtension) bool {
+	// Compare what Extensions() reports on both sides: it includes the tcptype
+	// extension, which is not stored in c.extensions.
+	extensions := c.Extensions()
+
 	freq1 := make(map[CandidateExtension]int)
 	freq2 := make(map[CandidateExtension]int)
 
-	if len(c.extensions) != len(other) {
+	if len(extensions) != len(other) {
 		return false
 	}
 
-	if len(c.extensions) == 0 {
+	if len(extensions) == 0 {
 		return true
 	}
 
-	if len(c.extensions) == 1 {
-		return c.extensions[0] == other[0]
+	if len(extensions) == 1 {
+		return extensions[0] == other[0]
 	}
 
-	for i := range c.extensions {
-		freq1[c.extensions[i]]++
+	for i := range extensions {
+		freq1[extensions[i]]++
 		freq2[other[i]]++
 	}
 
